@@ -204,7 +204,8 @@ Inductive event :=
                                   that does NOT authenticate (corrupted tag / garbage payload / wrong key) *)
 | Replay (sid : N)             (* the remote party's last message under session sid, sent again unchanged *)
 | Restart                      (* interface Down then Up: Peer.Stop (ZeroAndFlushAll) then Peer.Start *)
-| Keepalive.                   (* SendKeepalive: a keepalive-only transmission (no data) *)
+| Keepalive                    (* SendKeepalive: a keepalive-only transmission (no data) *)
+| Abandon.                     (* the retransmit timer expires for the last time: the handshake attempt is given up *)
 
 Record out := mkOut {
   o_acc : bool;        (* handshake completed / transport message accepted *)
@@ -299,6 +300,13 @@ Definition do_transmit (s : state) (m : N) : state * out :=
 (* a data packet from the TUN: StagePackets; SendStagedPackets *)
 Definition do_send (s : state) : state * out := do_transmit s (staged s + 1).
 
+(* timers.go expiredRetransmitHandshake with handshakeAttempts > MaxTimerHandshakes ("giving up"):
+   FlushStagedPackets; (the keepalive timer is deleted and the zero-key-material timer armed: not in the
+   slice).  Keys, index table and the pending handshake index stay; nothing is sent.  The attempts
+   counter stays at its maximum -- the code reads it only in this callback, so it is not part of the state.
+   (The same callback below the maximum is SendHandshakeInitiation(true): event Initiate false.) *)
+Definition do_abandon (s : state) : state * out := (set_staged s 0, out0).
+
 (* send.go SendKeepalive (keepalive timers, persistent keepalive, UAPI switch-on of the persistent
    keepalive): an empty packet is staged only if nothing is staged; SendStagedPackets.  The sequential
    sender calls keepKeyFreshSending after every batch, data or keepalive.  (The UAPI path calls
@@ -320,6 +328,7 @@ Definition step (s : state) (e : event) : state * out :=
   | Replay sid => do_unauthentic s sid
   | Restart => do_restart s
   | Keepalive => do_keepalive s
+  | Abandon => do_abandon s
   end.
 
 (* The property's composite event "handshake completed as initiator". *)
